@@ -120,6 +120,8 @@ def run(F, rep, tier):
     arity_rule(F, rep)
     search_direction_rule(F, rep)
     no_trim_rule(F, rep)
+    from props import c08_lists
+    c08_lists.run(F, rep)
     adt = F.adts.get(BIF)
     if adt is None:
         rep.missing_anchor(r1, BIF)
@@ -559,10 +561,30 @@ def no_trim_rule(F, rep):
             tr = find_hir(st["e"], lambda x: x.get("k") == "MethodCall" and re.search(r"core::str::<impl str>::trim(_start|_end|_matches|_start_matches|_end_matches)?$", x.get("callee") or ""))
             if tr and any(find_hir(c, lambda y: y.get("k") == "Path" and y.get("res") == "local" and y.get("name") == st["p"]["name"]) for c, _ in strings):
                 trims += tr
-        key = "trim:%s" % name.split("::")[-1]
-        if trims:
-            rep.violation(rid, key, "%s trims the text it returns (`%s`, line %s): an argument with leading or trailing white space loses it, which none of the specification's string "
-                          "functions does" % (name.split("::")[-1], trims[0][0].get("method"), trims[0][0].get("l")), "%s:%s" % (h["file"], trims[0][0].get("l")))
-        else:
-            rep.ok(rid, key, "returns its text untrimmed")
+        # a private helper's trimming is the trimming of the built-ins that return through it
+        owners = [name]
+        if (F.bodies.get(name) or {}).get("vis") != "pub":
+            seen, work = {name}, [name]
+            pubs = []
+            while work:
+                cur = work.pop()
+                for caller, hh in F.hir.items():
+                    if caller in seen or not caller.startswith("dmntk_feel_evaluator::bifs::core::"):
+                        continue
+                    if find_hir(hh["body"], lambda x: x.get("k") == "Call" and x.get("callee") == cur):
+                        seen.add(caller)
+                        base = caller.split("::{closure")[0]
+                        if (F.bodies.get(base) or {}).get("vis") == "pub":
+                            pubs.append(base)
+                        else:
+                            work.append(caller)
+            owners = sorted(set(pubs)) or [name]
+        for owner in owners:
+            key = "trim:%s" % owner.split("::")[-1]
+            if trims:
+                rep.violation(rid, key, "%s trims the text it returns (`%s`, line %s%s): an argument with leading or trailing white space loses it, which none of the specification's string "
+                              "functions does" % (owner.split("::")[-1], trims[0][0].get("method"), trims[0][0].get("l"), "" if owner == name else ", in its helper %s" % name.split("::")[-1]),
+                              "%s:%s" % (h["file"], trims[0][0].get("l")))
+            elif owner == name:
+                rep.ok(rid, key, "returns its text untrimmed")
     rep.floor(rid, "core built-ins returning a string", n, 8)
